@@ -124,11 +124,11 @@ Theorem C18_json_verdict_depends_on_depth_only :
 Proof. exact json_verdict_depends_on_depth_only. Qed.
 
 (* The JSON limit with the concrete model of the float spelling
-   (theories/JsonFloatModel.v, JsonFloatProofs.v): no premise is left. *)
-From XtModel Require Import JsonFloatModel JsonFloatProofs.
+   (theories/JsonFloatModel.v, JsonFloatProofs.v): no premise is left: the statements hold for every finite binary64 (ryu_ok_total). *)
+From XtModel Require Import JsonFloatModel JsonFloatProofs JsonFloatTotalProofs.
 
 Theorem C18_json_limit_exact_with_floats :
   forall (v : jval) (tail : bytes),
-    jwf ryu_ok v = true -> val_end tail ->
+    jwf f_finite v = true -> val_end tail ->
     (jok (snd (json_value (jwrite json_f64 v ++ tail))) = true <-> jdepth v < JSON_DEPTH).
-Proof. exact (json_value_limit_exact json_f64 ryu_ok json_f64_reads json_f64_head). Qed.
+Proof. exact (json_value_limit_exact json_f64 f_finite json_f64_reads_all json_f64_head_all). Qed.
